@@ -8,6 +8,7 @@
     model-mismatch <what>                the Lean IL semantics and falcon's executor disagree on the recovered function
     rejected <err>                       translate_function_extended returned an error (outside the property unless a panic)
     oracle-miss / unparsable             machinery
+  second request kind `asm …` (synthetic translation results, harness/src/bin/c06.rs): ok | rejected | panic | asm-mismatch
     asm-mismatch <first difference>      (only when the verdict would be `ok`) the Lean model of the assembly algorithm
                                          (FalconModel/Assemble.lean: `discover` + `assemble` run on the `tr` field, the
                                          translation results falcon's work list uses) does not reproduce the recovered function
@@ -168,7 +169,62 @@ def asmCheck (req ans : String) : Option String :=
     | _, _ => some "unparsable-tr"
   | _, _ => none      -- answers without a `tr` field (errors, old corpus lines) are not compared
 
+/-- request kind `asm <entry> | (at a <btr|empty>)… (manual h t <-|cond>)…`: the model's whole
+    `translate_function_extended` on a synthetic table against falcon's (run with a table translator) -/
+def handleAsm (req ans : String) : String :=
+  match req.splitOn " | " with
+  | [head, body] =>
+    let entry := ((head.splitOn " ")[1]?.bind Sx.parseNat).getD 0
+    match Sx.parseAll body with
+    | none => "unparsable\t-"
+    | some items =>
+      let parsed : Option (List (Nat × Option (Res BTR)) × List Assemble.ManualEdge) :=
+        items.foldr (fun x acc => do
+          let (tb, ms) ← acc
+          match x with
+          | .list [.atom "at", a, .atom "empty"] => pure (((← a.nat?), none) :: tb, ms)
+          | .list [.atom "at", a, .atom "fail"] => pure (((← a.nat?), some (.err .other)) :: tb, ms)
+          | .list [.atom "at", a, b] => pure (((← a.nat?), some (.ok (← Fil.btr? b))) :: tb, ms)
+          | .list [.atom "manual", h, t, c] =>
+            let c ← match c with
+              | .atom "-" => some none
+              | y => (Fil.expr? y).map some
+            pure (tb, { head := (← h.nat?), tail := (← t.nat?), cond := c } :: ms)
+          | _ => none) (some ([], []))
+      match parsed with
+      | none => "unparsable\t-"
+      | some (tb, manual) =>
+        -- addresses that are not listed have no bytes
+        let oracle : Nat → Option (Res BTR) := fun a => (tb.lookup a).getD none
+        let m := Assemble.translateFunction oracle manual entry (8 * tb.length + 8 * manual.length + 64)
+        let emptyList := tb.any (fun p => match p.2 with | some (.ok r) => r.instrs.isEmpty | _ => false)
+        let note := if emptyList then "empty-instruction-list" else "-"
+        if ans.startsWith "fn " then
+          match Sx.parseAll (ans.drop 3).toString with
+          | some [fx] =>
+            match Fil.function? fx, m with
+            | some f, .ok mf => if canonFn mf = f then "ok\t" ++ note else "asm-mismatch " ++ fnDiff (canonFn mf) f ++ "\t" ++ note
+            | some _, .err e => s!"asm-mismatch model-returns {e}\t" ++ note
+            | some _, .panic => "asm-mismatch model-panics\t" ++ note
+            | none, _ => "unparsable fn\t-"
+          | _ => "unparsable fn\t-"
+        else if ans.startsWith "err:" then
+          match m with
+          | .err _ => "rejected " ++ ans ++ "\t" ++ note
+          | .ok _ => "asm-mismatch falcon-returns-err model-ok\t" ++ note
+          | .panic => "asm-mismatch falcon-returns-err model-panics\t" ++ note
+        else
+          match m with
+          | .panic => "panic " ++ ans ++ "\t" ++ note
+          | _ => "asm-mismatch falcon-panics " ++ ans ++ "\t" ++ note
+  | _ => "bad-request\t-"
+
 def handle (line : String) : String :=
+  if line.startsWith "asm " then
+    match line.splitOn "\t" with
+    | [req, ans] => handleAsm req ans
+    | _ => "bad-request\t-"
+  else
   -- diagnostic form: `ASM:<request>\t<answer>` runs the assembly comparison alone
   if line.startsWith "ASM:" then
     match ((line.drop 4).toString).splitOn "\t" with
